@@ -29,7 +29,11 @@ pub struct HookStorage {
     capacity: Option<usize>,
     key_includes_recursion_flags: bool,
     counters: Counters,
+    insert_budget: Option<u64>,
 }
+
+/// Panic payload used when the insert budget of the current parse is exhausted.
+pub const BUDGET_EXCEEDED: &str = "verif_hooks: memo insert budget exceeded";
 
 impl HookStorage {
     fn new() -> Self {
@@ -38,6 +42,7 @@ impl HookStorage {
             capacity: DEFAULT_CAPACITY,
             key_includes_recursion_flags: false,
             counters: Counters::default(),
+            insert_budget: None,
         }
     }
 
@@ -67,6 +72,13 @@ impl HookStorage {
     pub fn insert(&mut self, key: Key, value: Option<(AnyNode, usize)>) {
         let key = self.normalize(&key);
         self.counters.inserts += 1;
+        if let Some(budget) = self.insert_budget {
+            if self.counters.inserts > budget {
+                // deterministic work bound for harnesses that explore tiny capacities
+                // (the caller catches the unwind; the next parse re-initialises all state)
+                std::panic::panic_any(BUDGET_EXCEEDED);
+            }
+        }
         self.inner.insert(key, value);
     }
 
@@ -110,6 +122,12 @@ pub fn set_key_includes_recursion_flags(on: bool) {
         storage.key_includes_recursion_flags = on;
         storage.inner.clear();
     });
+}
+
+/// Abort the running parse (by unwinding with `BUDGET_EXCEEDED`) once more than `budget`
+/// memo inserts have happened since the counters were last reset. `None` = no bound.
+pub fn set_insert_budget(budget: Option<u64>) {
+    PACKRAT_STORAGE.with(|storage| storage.borrow_mut().insert_budget = budget);
 }
 
 pub fn counters() -> Counters {
